@@ -1429,9 +1429,9 @@ op_map = {
     "Z3_OP_BSDIV0": None,
     "Z3_OP_BSDIV_I": "SDiv",
     "Z3_OP_BSHL": "__lshift__",
-    "Z3_OP_BSMOD": "SMod",
+    "Z3_OP_BSMOD": None,
     "Z3_OP_BSMOD0": None,
-    "Z3_OP_BSMOD_I": "SMod",
+    "Z3_OP_BSMOD_I": None,
     "Z3_OP_BSMUL_NO_OVFL": None,
     "Z3_OP_BSMUL_NO_UDFL": None,
     "Z3_OP_BSREM": "SMod",
@@ -1707,9 +1707,9 @@ op_type_map = {
     "Z3_OP_BSDIV0": None,
     "Z3_OP_BSDIV_I": BV,
     "Z3_OP_BSHL": BV,
-    "Z3_OP_BSMOD": BV,
+    "Z3_OP_BSMOD": None,
     "Z3_OP_BSMOD0": None,
-    "Z3_OP_BSMOD_I": BV,
+    "Z3_OP_BSMOD_I": None,
     "Z3_OP_BSMUL_NO_OVFL": None,
     "Z3_OP_BSMUL_NO_UDFL": None,
     "Z3_OP_BSREM": BV,
